@@ -20,9 +20,13 @@ deriving DecidableEq, Repr, Inhabited
 structure Rd where
   data : Bytes                      -- bytes not yet delivered
   fault : Option (Nat × Bool) := none  -- (bytes until an injected read error fires, fail-stop?)
+  pb : Nat := 0                     -- 1 iff the head of `data` is a pushed-back byte (already taken from the source)
 deriving DecidableEq, Repr
 
-def Rd.ofBytes (bs : Bytes) : Rd := ⟨bs, none⟩
+def Rd.ofBytes (bs : Bytes) : Rd := ⟨bs, none, 0⟩
+
+/-- bytes still held by the underlying source (excludes the pushed-back byte) -/
+def Rd.sourceLeft (r : Rd) : Nat := r.data.length - r.pb
 
 /-- State after an injected fault fired: fail-once clears it, fail-stop keeps it. -/
 def Rd.afterFault (r : Rd) : Rd :=
@@ -38,12 +42,12 @@ def Rd.read1 (r : Rd) : Except Err (Nat × Rd) × Rd :=
     match r.data with
     | [] => (.error .eof, r)
     | b :: rest =>
-      let r' : Rd := ⟨rest, r.fault.map fun (k, s) => (k - 1, s)⟩
+      let r' : Rd := ⟨rest, r.fault.map fun (k, s) => (k - 1, s), 0⟩
       (.ok (b, r'), r')
 
 /-- `Unreadn1` after a successful `read1` that returned `b`. -/
 def Rd.unread1 (r : Rd) (b : Nat) : Rd :=
-  ⟨b :: r.data, r.fault.map fun (k, s) => (k + 1, s)⟩
+  ⟨b :: r.data, r.fault.map fun (k, s) => (k + 1, s), 1⟩
 
 /-- `Readb`/`Readn`/`Readnzc` of `n > 0` bytes through `io.ReadAtLeast`:
     result and the reader afterwards. -/
@@ -53,15 +57,15 @@ def Rd.readN (r : Rd) (n : Nat) : Except Err Bytes × Rd :=
     | some (k, _) => min k r.data.length
     | none => r.data.length
   if n ≤ avail then
-    (.ok (r.data.take n), ⟨r.data.drop n, r.fault.map fun (k, s) => (k - n, s)⟩)
+    (.ok (r.data.take n), ⟨r.data.drop n, r.fault.map fun (k, s) => (k - n, s), 0⟩)
   else
     match r.fault with
     | some (k, s) =>
       if k ≤ r.data.length then
         -- the fault fires after k bytes
-        (.error .injected, (⟨r.data.drop k, some (0, s)⟩ : Rd).afterFault)
+        (.error .injected, (⟨r.data.drop k, some (0, s), 0⟩ : Rd).afterFault)
       else
-        (.error (if r.data.isEmpty then .eof else .unexpectedEof), ⟨[], some (k - r.data.length, s)⟩)
-    | none => (.error (if r.data.isEmpty then .eof else .unexpectedEof), ⟨[], none⟩)
+        (.error (if r.data.isEmpty then .eof else .unexpectedEof), ⟨[], some (k - r.data.length, s), 0⟩)
+    | none => (.error (if r.data.isEmpty then .eof else .unexpectedEof), ⟨[], none, 0⟩)
 
 end Refmt
